@@ -585,7 +585,7 @@ def evaluate(res, outcomes, seed, per_batch, label, run_selftest, root='C19'):
 
 def run(res):
   thorough = res.tier == 'thorough'
-  n_inst = 2000 if thorough else 96
+  n_inst = 2000 if thorough else 240
   tlc.run_dir('C19')
   ctx = multiprocessing.get_context('fork')
   pool = ctx.Pool(16)       # forked before any thread exists; imports matched_markets in the children
